@@ -144,6 +144,25 @@ def mk_and(items):
     for it in out:
         if mk_not(it) in out:
             return FALSE
+    # unit propagation into disjunctions: a & (a | X) -> a ; ~a & (a | X) -> ~a & X
+    if any(tag(x) == 'or' for x in out) and len(out) > 1:
+        lits = [x for x in out if tag(x) != 'or']
+        new, changed = [], False
+        for x in out:
+            if tag(x) != 'or':
+                new.append(x)
+                continue
+            if any(d in lits for d in x[1]):
+                changed = True
+                continue
+            keep = [d for d in x[1] if mk_not(d) not in lits]
+            if len(keep) != len(x[1]):
+                changed = True
+                new.append(mk_or(keep))
+            else:
+                new.append(x)
+        if changed:
+            return mk_and(new)
     if not out:
         return TRUE
     if len(out) == 1:
@@ -177,6 +196,12 @@ def mk_or(items):
                     del out[j]
                     changed = True
                     break
+                if len(sets[i]) == 1 and mk_not(next(iter(sets[i]))) in sets[j]:
+                    # a | (~a & X) -> a | X
+                    rest = sets[j] - {mk_not(next(iter(sets[i])))}
+                    out[j] = mk_and(list(rest)) if rest else TRUE
+                    changed = True
+                    break
                 da, db = sets[i] - sets[j], sets[j] - sets[i]
                 if len(da) == 1 and len(db) == 1 and mk_not(next(iter(da))) == next(iter(db)):
                     common = sets[i] & sets[j]
@@ -193,6 +218,54 @@ def mk_or(items):
     if len(out) == 1:
         return out[0]
     return ('or', tuple(sorted(out, key=key)))
+
+
+def _prop_atoms(f, acc):
+    tg = tag(f)
+    if tg in ('and', 'or'):
+        for x in f[1]:
+            _prop_atoms(x, acc)
+    elif tg == 'not':
+        _prop_atoms(f[1], acc)
+    elif tg == 'c' and isinstance(f[1], bool):
+        pass
+    else:
+        n = mk_not(f)
+        # one atom per complementary pair of comparisons (a < b / b <= a)
+        a = f if tag(n) == 'not' or key(f) <= key(n) else n
+        if a not in acc:
+            acc.append(a)
+
+
+def _prop_eval(f, val):
+    tg = tag(f)
+    if tg == 'and':
+        return all(_prop_eval(x, val) for x in f[1])
+    if tg == 'or':
+        return any(_prop_eval(x, val) for x in f[1])
+    if tg == 'not':
+        return not _prop_eval(f[1], val)
+    if tg == 'c' and isinstance(f[1], bool):
+        return f[1]
+    if f in val:
+        return val[f]
+    return not val[mk_not(f)]
+
+
+def implies(premise, conclusion, max_atoms: int = 16):
+    """Propositional entailment by truth table over the atoms of both formulas (comparisons and their complements
+    share an atom; atoms are otherwise treated as independent, so True is sound and False may be pessimistic).
+    Returns None when there are too many atoms."""
+    atoms = []
+    _prop_atoms(premise, atoms)
+    _prop_atoms(conclusion, atoms)
+    if len(atoms) > max_atoms:
+        return None
+    for bits in range(1 << len(atoms)):
+        val = {a: bool(bits >> i & 1) for i, a in enumerate(atoms)}
+        if _prop_eval(premise, val) and not _prop_eval(conclusion, val):
+            return False
+    return True
 
 
 def _const_cmp(op, a, b):
